@@ -56,4 +56,8 @@ PROPS = {
         {"id": "C07", "quick_n": 1500, "thorough_n": 200000, "quick_s": 60, "thorough_s": 900, "timeout": 120,
          "rule": "source repo (DAG <=14, shared blocks) x pre-populated destination x tips x table depth x max packfile size x packfile read partition, real sender->packfile->receiver; adversarial object orders; non-trivial = (>=2 packfiles or pre-populated destination) and >=2 commits sent; distinct by plan hash"},
     ]},
+    "C05": {"level": "exploration", "profiles": [
+        {"id": "C05", "cpu": 4, "quick_n": 1200, "thorough_n": 150000, "quick_s": 60, "thorough_s": 900, "timeout": 120,
+         "rule": "constructive 3-way merge scenarios (key anywhere or none, 1-3 blocks, 2-3 branches; disjoint edits, identical branches, branch = base, declared conflicts; column add/remove/move/rename; branch order permuted; hash-set batch; blocks or rows output); non-trivial = >=2 branches with edits or a conflict or a column operation; distinct by plan hash"},
+    ]},
 }
